@@ -506,7 +506,8 @@ class Gen:
                     inner["segs"][0] = ["Word"]
         elif inner_kind == "list":
             inner = self.list_(2, "top")
-            inner["items"] = [[b[0]] for b in inner["items"] if b]  # no empty items next to a tag line
+            # next to a tag line: plain one-paragraph items only (no empty, rule-only, quote-only or list-first items)
+            inner["items"] = [[b[0]] for b in inner["items"] if b and b[0]["t"] == "para"] or [[self.para(1)]]
             for it in inner["items"]:
                 # single physical line per item: flowmark's blank-line rule looks at the line next to the tag
                 it[0]["segs"] = [[w for seg in it[0]["segs"] for w in seg]]
